@@ -71,7 +71,7 @@ def sink_sequences(res, rnd, with_cmds=False, what='open/message/close sequence 
     n = n_quick if res.tier == 'quick' else n_thorough
     cases = []
     for _ in range(n):
-        ids = ['x', 'y', 'z'][: rnd.choice([1, 2, 3])]
+        ids = ['gdb_conn:0x55550000', 'gdb_conn:0x55550100', 'gdb_conn:0x7fff0000'][: rnd.choice([1, 2, 3])]
         lanes = {i: world_lane(rnd) for i in ids}
         pos = {i: 0 for i in ids}
         is_open = {i: False for i in ids}
